@@ -624,3 +624,322 @@ pub fn run_e2e(args: &Args) {
         f
     });
 }
+
+// ------------------------------------------------------------------ c18fea: names supplied through feature code
+
+#[derive(Clone, Debug)]
+pub struct NameSrc {
+    pub platform: u16,
+    pub enc: u16,
+    pub lang: u16,
+    pub text: String,
+}
+
+impl NameSrc {
+    fn en(t: &str) -> NameSrc { NameSrc { platform: 3, enc: 1, lang: 0x409, text: t.to_string() } }
+    fn lang(t: &str, lang: u16) -> NameSrc { NameSrc { platform: 3, enc: 1, lang, text: t.to_string() } }
+    /// `name "…";` / `name 3 1 0x407 "…";` (keyword given by the caller)
+    fn fea(&self, kw: &str) -> String {
+        if self.lang == 0x409 { format!("{kw} \"{}\";", self.text) } else { format!("{kw} {} {} 0x{:X} \"{}\";", self.platform, self.enc, self.lang, self.text) }
+    }
+    fn sexp(&self) -> S {
+        S::list([S::usize(self.platform as usize), S::usize(self.enc as usize), S::usize(self.lang as usize), S::str(&self.text)])
+    }
+}
+
+fn names_s(v: &[NameSrc]) -> S { S::list(v.iter().map(|n| n.sexp())) }
+
+#[derive(Clone, Debug)]
+pub enum Elided { Id(u16), Names(Vec<NameSrc>) }
+
+#[derive(Clone, Debug, Default)]
+pub struct FeaSrc {
+    /// `table name { nameid N …; }` records in file order
+    pub explicit: Vec<(u16, NameSrc)>,
+    pub order_kind: &'static str,
+    pub stat: Option<StatSrc>,
+    /// (tag, featureNames)
+    pub ss: Vec<(String, Vec<NameSrc>)>,
+    /// (tag, label, tooltip, sample, params)
+    pub cv: Option<(String, Vec<NameSrc>, Vec<NameSrc>, Vec<NameSrc>, Vec<Vec<NameSrc>>)>,
+    pub size: Option<Vec<NameSrc>>,
+    /// where in the file the `table name` block goes: before or after the features that allocate anonymous names
+    pub name_table_last: bool,
+}
+
+#[derive(Clone, Debug)]
+pub struct StatSrc {
+    pub elided: Elided,
+    /// DesignAxis records in file order: (tag, ordering, names)
+    pub axes: Vec<(String, usize, Vec<NameSrc>)>,
+    /// AxisValue records in file order: (axis tag, value, names, elidable)
+    pub values: Vec<(String, f64, Vec<NameSrc>, bool)>,
+}
+
+const FEA_LABELS: [&str; 8] = ["Alt a", "Regular", "Weight", "Bold", "Roman", "Custom", "Light", "Wide"];
+
+fn gen_names(rng: &mut Rng, base: &str) -> Vec<NameSrc> {
+    let mut v = vec![NameSrc::en(base)];
+    if rng.chance(1, 3) { v.push(NameSrc::lang(&format!("{base} de"), 0x407)); }
+    if rng.chance(1, 6) { v.push(NameSrc::lang(&format!("{base} fr"), 0x40C)); }
+    if rng.chance(1, 4) { v.reverse(); }
+    v
+}
+
+pub fn gen_fea(rng: &mut Rng, d: &design::Design, risky: bool) -> FeaSrc {
+    let mut f = FeaSrc::default();
+    // explicit records: distinct (id, language) keys
+    let id_pool: [u16; 8] = [256, 257, 258, 260, 263, 9, 7, 13];
+    let n_ids = 1 + rng.below(4);
+    let mut ids: Vec<u16> = vec![];
+    while ids.len() < n_ids { let id = *rng.pick(&id_pool); if !ids.contains(&id) { ids.push(id); } }
+    if !ids.iter().any(|i| *i >= 256) { ids.push(256); }
+    let mut recs: Vec<(u16, NameSrc)> = vec![];
+    for id in &ids {
+        let base = format!("{} {}", rng.pick(&FEA_LABELS), id);
+        recs.push((*id, NameSrc::en(&base)));
+        if rng.chance(1, 2) { recs.push((*id, NameSrc::lang(&format!("{base} de"), 0x407))); }
+        if rng.chance(1, 5) { recs.push((*id, NameSrc::lang(&format!("{base} fr"), 0x40C))); }
+    }
+    f.order_kind = match rng.below(5) {
+        0 => { recs.sort_by_key(|r| (r.0, r.1.lang)); "ascending" }
+        1 => { recs.sort_by_key(|r| (r.0, r.1.lang)); recs.reverse(); "descending" }
+        2 => { recs.sort_by_key(|r| (r.1.lang, r.0)); "by-language" }
+        3 => { recs.sort_by_key(|r| (std::cmp::Reverse(r.1.lang), std::cmp::Reverse(r.0))); "by-language-descending" }
+        _ => { rng.shuffle(&mut recs); "shuffled" }
+    };
+    f.explicit = recs;
+    f.name_table_last = rng.chance(1, 3);
+    // STAT
+    if rng.chance(5, 6) {
+        let english_font_specific: Vec<u16> = f.explicit.iter().filter(|(id, n)| *id >= 256 && n.lang == 0x409).map(|(id, _)| *id).collect();
+        let elided = match rng.below(if risky { 4 } else { 3 }) {
+            0 | 1 => Elided::Id(*rng.pick(&english_font_specific)),
+            2 => Elided::Names(gen_names(rng, "Regular")),
+            // risky: a reserved id that only fontc's own name table has (feaLib accepts this)
+            _ => Elided::Id(2),
+        };
+        let mut axes = vec![];
+        for (i, a) in d.axes.iter().enumerate() {
+            axes.push((a.tag.clone(), i, gen_names(rng, &a.name)));
+        }
+        if rng.chance(1, 3) { axes.reverse(); }
+        let mut values = vec![];
+        for a in d.axes.iter() {
+            let mut vals = vec![a.default];
+            if a.min != a.default && rng.chance(2, 3) { vals.push(a.min); }
+            if a.max != a.default && rng.chance(2, 3) { vals.push(a.max); }
+            for v in vals {
+                let label = if v == a.default { "Regular".to_string() } else { format!("{} {}", rng.pick(&FEA_LABELS), v as i64) };
+                values.push((a.tag.clone(), v, gen_names(rng, &label), v == a.default));
+            }
+        }
+        if rng.chance(1, 2) { rng.shuffle(&mut values); }
+        f.stat = Some(StatSrc { elided, axes, values });
+    }
+    let glyphs = d.glyph_names();
+    if glyphs.len() >= 2 {
+        let n_ss = rng.below(3);
+        let mut tags = vec!["ss01", "ss02", "ss07"];
+        rng.shuffle(&mut tags);
+        for t in tags.iter().take(n_ss) {
+            let base = format!("{} {}", rng.pick(&FEA_LABELS), t);
+            f.ss.push((t.to_string(), gen_names(rng, &base)));
+        }
+        if rng.chance(1, 3) {
+            let n_params = rng.below(3);
+            f.cv = Some(("cv01".to_string(), gen_names(rng, "CV label"),
+                if rng.chance(1, 2) { gen_names(rng, "CV tooltip") } else { vec![] },
+                if rng.chance(1, 2) { gen_names(rng, "CV sample") } else { vec![] },
+                (0..n_params).map(|k| gen_names(rng, &format!("CV param {k}"))).collect()));
+        }
+        if rng.chance(1, 4) { f.size = Some(gen_names(rng, "Size menu")); }
+    }
+    if risky && rng.chance(1, 3) {
+        // FEA overrides a reserved record that fvar may reuse (the default instance's subfamily name)
+        f.explicit.push((2, NameSrc::en("Roman")));
+    }
+    f
+}
+
+impl FeaSrc {
+    pub fn text(&self, d: &design::Design) -> String {
+        let mut name_tbl = String::from("table name {\n");
+        for (id, n) in &self.explicit { name_tbl.push_str(&format!("  {}\n", n.fea(&format!("nameid {id}")))); }
+        name_tbl.push_str("} name;\n");
+        let mut s = String::new();
+        if !self.name_table_last { s.push_str(&name_tbl); }
+        let g = d.glyph_names();
+        for (tag, names) in &self.ss {
+            s.push_str(&format!("feature {tag} {{\n  featureNames {{\n"));
+            for n in names { s.push_str(&format!("    {}\n", n.fea("name"))); }
+            s.push_str(&format!("  }};\n  sub {} by {};\n}} {tag};\n", g[0], g[1]));
+        }
+        if let Some((tag, label, tip, sample, params)) = &self.cv {
+            s.push_str(&format!("feature {tag} {{\n  cvParameters {{\n"));
+            let mut block = |kw: &str, names: &Vec<NameSrc>| {
+                if names.is_empty() { return; }
+                s.push_str(&format!("    {kw} {{\n"));
+                for n in names { s.push_str(&format!("      {}\n", n.fea("name"))); }
+                s.push_str("    };\n");
+            };
+            block("FeatUILabelNameID", label);
+            block("FeatUITooltipTextNameID", tip);
+            block("SampleTextNameID", sample);
+            for p in params { block("ParamUILabelNameID", p); }
+            s.push_str(&format!("    Character 0x61;\n  }};\n  sub {} by {};\n}} {tag};\n", g[0], g[1]));
+        }
+        if let Some(names) = &self.size {
+            s.push_str("feature size {\n  parameters 10.0 3 80 139;\n");
+            for n in names { s.push_str(&format!("  {}\n", n.fea("sizemenuname"))); }
+            s.push_str("} size;\n");
+        }
+        if let Some(st) = &self.stat {
+            s.push_str("table STAT {\n");
+            match &st.elided {
+                Elided::Id(id) => s.push_str(&format!("  ElidedFallbackNameID {id};\n")),
+                Elided::Names(ns) => {
+                    s.push_str("  ElidedFallbackName {\n");
+                    for n in ns { s.push_str(&format!("    {}\n", n.fea("name"))); }
+                    s.push_str("  };\n");
+                }
+            }
+            for (tag, ord, names) in &st.axes {
+                s.push_str(&format!("  DesignAxis {tag} {ord} {{\n"));
+                for n in names { s.push_str(&format!("    {}\n", n.fea("name"))); }
+                s.push_str("  };\n");
+            }
+            for (tag, v, names, elidable) in &st.values {
+                s.push_str(&format!("  AxisValue {{\n    location {tag} {};\n", write::num(*v)));
+                for n in names { s.push_str(&format!("    {}\n", n.fea("name"))); }
+                if *elidable { s.push_str("    flag ElidableAxisValueName;\n"); }
+                s.push_str("  };\n");
+            }
+            s.push_str("} STAT;\n");
+        }
+        if self.name_table_last { s.push_str(&name_tbl); }
+        s
+    }
+
+    pub fn sexp(&self) -> S {
+        let stat = match &self.stat {
+            None => S::atom("none"),
+            Some(st) => S::list([
+                S::k1("elided", match &st.elided { Elided::Id(i) => S::list([S::atom("id"), S::usize(*i as usize)]), Elided::Names(n) => S::list([S::atom("names"), names_s(n)]) }),
+                S::k1("axes", S::list(st.axes.iter().map(|(t, o, n)| S::list([S::str(t), S::usize(*o), names_s(n)])))),
+                S::k1("values", S::list(st.values.iter().map(|(t, v, n, _)| S::list([S::str(t), S::f64(*v), names_s(n)])))),
+            ]),
+        };
+        S::kv("fea", [
+            S::k1("order", S::atom(self.order_kind)),
+            S::k1("nametablelast", S::bool(self.name_table_last)),
+            S::k1("explicit", S::list(self.explicit.iter().map(|(id, n)| S::list([S::usize(*id as usize), n.sexp()])))),
+            S::k1("stat", stat),
+            S::k1("ss", S::list(self.ss.iter().map(|(t, n)| S::list([S::str(t), names_s(n)])))),
+            S::k1("cv", S::opt(self.cv.as_ref().map(|(t, a, b, c, p)| S::list([S::str(t), names_s(a), names_s(b), names_s(c), S::list(p.iter().map(|x| names_s(x)))])))),
+            S::k1("size", S::opt(self.size.as_ref().map(|n| names_s(n)))),
+        ])
+    }
+}
+
+/// every name id a compiled font's STAT and GSUB/GPOS feature parameters refer to
+pub fn dump_fea_refs(bytes: &[u8]) -> S {
+    use write_fonts::read::{FontRef, TableProvider};
+    use write_fonts::read::tables::layout::FeatureParams;
+    use write_fonts::read::tables::stat::AxisValue;
+    let Ok(font) = FontRef::new(bytes) else { return S::kv("refs", [S::atom("unreadable")]) };
+    let mut out = vec![];
+    if let Ok(stat) = font.stat() {
+        let axes: Vec<S> = stat.design_axes().map(|a| a.iter().map(|r| {
+            S::list([S::str(&r.axis_tag().to_string()), S::usize(r.axis_name_id().to_u16() as usize), S::usize(r.axis_ordering() as usize)])
+        }).collect()).unwrap_or_default();
+        let mut values: Vec<S> = vec![];
+        if let Some(Ok(arr)) = stat.offset_to_axis_values() {
+            for v in arr.axis_values().iter().filter_map(|v| v.ok()) {
+                let (fmt, ax, val, id) = match &v {
+                    AxisValue::Format1(t) => (1, t.axis_index() as usize, t.value().to_f64(), t.value_name_id()),
+                    AxisValue::Format2(t) => (2, t.axis_index() as usize, t.nominal_value().to_f64(), t.value_name_id()),
+                    AxisValue::Format3(t) => (3, t.axis_index() as usize, t.value().to_f64(), t.value_name_id()),
+                    AxisValue::Format4(t) => (4, 0, 0.0, t.value_name_id()),
+                };
+                values.push(S::list([S::usize(fmt), S::usize(ax), S::f64(val), S::usize(id.to_u16() as usize)]));
+            }
+        }
+        out.push(S::kv("STAT", [
+            S::k1("axes", S::list(axes)),
+            S::k1("values", S::list(values)),
+            S::k1("elided", S::opt(stat.elided_fallback_name_id().map(|x| S::usize(x.to_u16() as usize)))),
+        ]));
+    }
+    let mut params: Vec<S> = vec![];
+    let mut collect = |tag: String, p: Option<Result<FeatureParams, write_fonts::read::ReadError>>| {
+        match p {
+            Some(Ok(FeatureParams::StylisticSet(p))) => params.push(S::list([S::str(&tag), S::atom("ss"), S::usize(p.ui_name_id().to_u16() as usize)])),
+            Some(Ok(FeatureParams::CharacterVariant(p))) => params.push(S::list([S::str(&tag), S::atom("cv"),
+                S::usize(p.feat_ui_label_name_id().to_u16() as usize), S::usize(p.feat_ui_tooltip_text_name_id().to_u16() as usize),
+                S::usize(p.sample_text_name_id().to_u16() as usize), S::usize(p.num_named_parameters() as usize),
+                S::usize(p.first_param_ui_label_name_id().to_u16() as usize)])),
+            Some(Ok(FeatureParams::Size(p))) => params.push(S::list([S::str(&tag), S::atom("size"), S::usize(p.name_entry() as usize)])),
+            _ => {}
+        }
+    };
+    if let Ok(gsub) = font.gsub() {
+        if let Ok(fl) = gsub.feature_list() {
+            for rec in fl.feature_records() {
+                if let Ok(feat) = rec.feature(fl.offset_data()) { collect(rec.feature_tag().to_string(), feat.feature_params()); }
+            }
+        }
+    }
+    if let Ok(gpos) = font.gpos() {
+        if let Ok(fl) = gpos.feature_list() {
+            for rec in fl.feature_records() {
+                if let Ok(feat) = rec.feature(fl.offset_data()) { collect(rec.feature_tag().to_string(), feat.feature_params()); }
+            }
+        }
+    }
+    out.push(S::k1("featparams", S::list(params)));
+    S::kv("refs", out)
+}
+
+/// `c18fea`: the property's domain; `c18feax`: additionally the two configurations recorded as findings
+/// (ElidedFallbackNameID naming a reserved id that only the compiler's own name table has; `nameid 2` overridden in FEA).
+pub fn run_fea(stream: &'static str, args: &Args) {
+    let seed = args.seed;
+    let risky = stream == "c18feax";
+    unsafe { std::env::set_var("SOURCE_DATE_EPOCH", "1700000000") };
+    crate::run_cases(stream, args, move |i| {
+        let mut rng = Rng::for_case(seed, stream, i);
+        let mut o = design::GenOpts::default();
+        o.max_glyphs = 3; o.sparse = false; o.composites = false; o.max_axes = 2; o.quads = false; o.intermediate = false; o.corner = false;
+        let mut d = design::gen_design(&mut rng, &o);
+        // one case in five is a static font (no names of the compiler's own above 255: the FEA ids are not shifted)
+        let is_static = rng.chance(1, 5);
+        if is_static {
+            let dm = d.default_master;
+            let m = d.masters[dm].clone();
+            d.masters = vec![m];
+            d.default_master = 0;
+            for (k, a) in d.axes.iter_mut().enumerate() { let v = d.masters[0].loc[k]; a.min = v; a.default = v; a.max = v; }
+        } else if rng.chance(1, 2) {
+            // a default-located instance that reuses name id 2, and another one that gets a fresh id
+            let loc = d.masters[d.default_master].loc.clone();
+            d.instances.push(design::Instance { family: d.family.clone(), style: "Regular".into(), postscript: None, loc: loc.clone() });
+            let other = d.masters[d.masters.len() - 1].loc.clone();
+            d.instances.push(design::Instance { family: d.family.clone(), style: "Heavy".into(), postscript: None, loc: other });
+        }
+        let fea = gen_fea(&mut rng, &d, risky);
+        d.features = Some(fea.text(&d));
+        let tmp = build::tmpdir(stream);
+        let ds = write::write_design(tmp.path(), &d);
+        let mut f = vec![d.to_sexp(), fea.sexp(), S::k1("static", S::bool(is_static)), S::k1("family", S::str(&d.family)), S::k1("style", S::str(&d.masters[d.default_master].style))];
+        match build::compile(&ds, &build::BuildOpts::default()) {
+            Ok(bytes) => {
+                f.push(S::k1("result", S::atom("ok")));
+                f.push(dump::dump_all(&bytes));
+                f.push(dump_fea_refs(&bytes));
+            }
+            Err(e) => f.push(S::kv("result", [S::atom("err"), S::str(&e)])),
+        }
+        f
+    });
+}
